@@ -436,6 +436,11 @@ func (mi *MessageInfo) unmarshalPointerLazy(b []byte, p pointer, groupTag protow
 	}
 	if initialized {
 		out.initialized = true
+	} else if lazyDecode {
+		// Required fields are missing in this message or below. CheckInitialized
+		// skips unexpanded lazy fields of messages that were checked while
+		// unmarshaling, so record that this message did not pass that check.
+		(*lazy).SetUnmarshalFlags((*lazy).UnmarshalFlags() &^ piface.UnmarshalCheckRequired)
 	}
 	out.n = start - len(b)
 	return out, nil
